@@ -1,17 +1,18 @@
-SPECIFICATION Spec
+SPECIFICATION SimSpec
 CONSTANTS
-  Cap = 2
+  Cap = 3
   H0 = 0
-  MaxIdx = 5
+  MaxIdx = 7
   Procs = {"p1", "p2"}
-  MaxPuts = 6
+  MaxPuts = 8
   Blocking = FALSE
-  WithExternal = TRUE
+  WithExternal = FALSE
   WithDiscard = FALSE
   WithRequester = FALSE
   PeerH = 0
   BugClearAlways = FALSE
   BugKeepOld = FALSE
-VIEW view
-INVARIANTS TypeOK RingOK CallOK NoPanic NoStuck
+  Depth = 56
+  WitnessKind = "none"
+INVARIANT Emit
 CHECK_DEADLOCK FALSE
